@@ -9,16 +9,60 @@ VERIF = os.path.dirname(os.path.dirname(os.path.abspath(__file__)))
 TRUST = ("TLC 1.8.0 + CommunityModules; the Linux ptrace interface (every system call of the unprivileged actor processes is seen, "
          "calls are serialised by the tracer); tmpfs as the POSIX filesystem; the actor's self-describing value encoding.")
 
+TV = "TLC trace validation (TraceProps.tla: PosixFS replay + Props monitors) of ptrace-recorded executions"
 INFO = {
     "C01": ("model_checking", "§7 C01",
             "Kismet.tla (one action per system call) is model-checked exhaustively for 2 participants; the real library is driven through "
             "preemption-bounded DFS / seeded random schedules at system-call granularity by the ptrace tracer and every state of every "
             "execution is judged by TLC with Props!DirValid / HandleContentOK / Immutable; TraceKismet checks that the executions are paths of the model.",
-            "TLC model checking of Kismet.tla + TLC trace validation (TraceProps, TraceKismet) of ptrace-scheduled executions"),
+            "TLC model checking of Kismet.tla + " + TV + " under ptrace-controlled schedules"),
+    "C02": ("fault_enumeration", "§7 C02",
+            "Every system-call boundary of every (operation, front end, pre-state) scenario is taken as a crash point (SIGKILL at syscall entry); "
+            "DirValid/DebrisConfined hold in the post-crash tree, a fresh process's operations succeed (NoErr), young debris survives and aged debris is removed "
+            "(YoungTempKept, StaleGone); design level: Kismet.tla with Crash enabled in every state.",
+            "crash-point enumeration by ptrace + " + TV + "; TLC model checking of Kismet.tla with Crash"),
+    "C03": ("model_checking", "§7 C03",
+            "Complete system-call traces of every publishing path of the stacked cache are judged by DurableFirst (per-inode dirty/fsync/chmod bookkeeping "
+            "in the trace specification) and Immutable; every fsync failing in turn must never be followed by publication.",
+            TV + " incl. fsync fault injection"),
     "C05": ("model_checking", "§7 C05",
             "Kismet.tla's InvNoErr under every interleaving (design level) and Props!NoErr on real executions with capacity-1 caches, missing "
             "directories and an adversary deleting published files at every scheduler step.",
-            "TLC model checking of Kismet.tla + TLC trace validation of ptrace-scheduled executions with adversarial deletions"),
+            "TLC model checking of Kismet.tla + " + TV + " with adversarial deletions"),
+    "C06": ("model_checking", "§7 C06",
+            "Design level: ENABLED of each participant's own next step in every reachable state of Kismet.tla (also after a peer crashed). Real code: from every "
+            "scheduler step of base schedules each participant runs alone with all others frozen; it must return ok within the step bound, taking no lock.",
+            "TLC model checking (InvNonBlocking) + solo-from-prefix executions under ptrace judged by TLC trace validation"),
+    "C07": ("model_checking", "§7 C07",
+            "SecondChance.tla's declarative relation PlanOK is proved (TLC, exhaustive n<=4) to accept exactly the outcomes of the textbook queue over all tie "
+            "orders; lifted to directory snapshots (PruneOK) it judges the before/after state of real maintenance on enumerated populations.",
+            "TLC exhaustive check of SecondChance.tla + TLC judgement (PruneOK) of enumerated on-disk populations"),
+    "C13": ("model_checking", "§7 C13",
+            "Stack.tla gives the expected result / hit kind / post state for every point of the configuration matrix (laws checked by TLC over the whole domain); "
+            "each point is built on disk and the real outcome is judged by Stack!ObservedOK.",
+            "TLC check of Stack.tla + TLC judgement of the enumerated configuration matrix executed on the real library"),
+    "C14": ("model_checking", "§7 C14",
+            "As C13 with checker in {none, byte-equality, panicking, logging}: success iff all copies agree; the logging checker's comparison graph must connect "
+            "every copy Stack.tla says must be compared; with no checker nothing is compared.",
+            "TLC check of Stack.tla + TLC judgement of the enumerated matrix (checker variants)"),
+    "C15": ("model_checking", "§7 C15",
+            "ROUntouched is evaluated by TLC on every step of the stacked / read-only matrix runs: no successful mutating call under a read-only root, snapshots equal up to atime.",
+            TV + " over the stacked-cache matrix"),
+    "C16": ("model_checking", "§7 C16",
+            "All names over a 5-class alphabet up to length 3 (thorough 4) plus boundary names x operations x front ends, cache inside a sentinel tree; "
+            "ConfinedStrict / RejectedOK / RejectedNoEffect / OutsideUntouched evaluated by TLC on every call and snapshot.",
+            TV + " over an enumerated name grammar"),
+    "C17": ("model_checking", "§7 C17",
+            "Populations mixing key files, dot-prefixed application files/directories, temp debris on both sides of the age limit; RemovalOK / DotFilesUntouched / "
+            "YoungTempKept / StaleGone evaluated by TLC; design level: Kismet.tla's StepRemoval with stale and young debris.",
+            TV + " over enumerated populations + TLC model checking of Kismet.tla (StepRemoval)"),
+    "C18": ("fault_enumeration", "§7 C18",
+            "For every library system call of every scenario and every plausible errno the call is skipped and failed (ptrace); FaultOK / FollowUpOK / NoLeak / "
+            "DirValid / ReadsLastSet evaluated by TLC; the operation and a lookup are re-issued by a fresh process.",
+            "fault enumeration by ptrace + " + TV),
+    "C19": ("model_checking", "§7 C19",
+            "HandleModeOK (read-only, offset 0), Mode0444, ReadOnlyFirst evaluated by TLC on the stacked-cache matrix under umasks 000/022/077 with consuming judges and checkers.",
+            TV + " over the stacked-cache matrix x umask"),
 }
 
 
